@@ -142,6 +142,11 @@ func (proj *Project) loadIndex() error {
 		} else {
 			deps := make([]string, 0, len(info.Dependencies))
 			for k := range info.Dependencies {
+				// The keys are labels. One that does not parse (a damaged record) must not get as far as
+				// Dependencies(), which panics on it.
+				if _, err := label.Parse(k); err != nil {
+					return fmt.Errorf("%v: recorded dependency %q: %w", l, k, err)
+				}
 				deps = append(deps, k)
 			}
 			sort.Strings(deps)
